@@ -12,6 +12,15 @@ SPATIAL_MODELS = ["OneDimSpatial", "Spatial", "ClusteredSpatial"]
 ALL_MODELS = NAME_MODELS + SLATE_MODELS + SIMPLEX_MODELS + SPATIAL_MODELS
 
 
+def directional_distance(voter, candidate):
+    """an asymmetric 'distance' (a candidate to the right of the voter is three times as far as one equally far to the
+    left): distinguishes distance(voter, candidate) from distance(candidate, voter)"""
+    import numpy as np
+
+    d = np.atleast_1d(candidate) - np.atleast_1d(voter)
+    return float(np.sum(np.where(d > 0, 3.0 * d, -d)))
+
+
 def split_unit(rnd, k, extremes=True):
     """k non-negative floats summing to 1 (within 1e-12), possibly with exact 0/1 entries"""
     if k == 1:
@@ -98,12 +107,15 @@ def make(model, params, extra=None):
         return cls(candidates=cands)
     if model == "OneDimSpatial":
         return cls(candidates=list(params["candidates"]))
+    dist_kw = {}
+    if params.get("distance") == "directional":
+        dist_kw = {"distance": directional_distance}
     if model == "Spatial":
-        return cls(candidates=list(params["candidates"]),
+        return cls(candidates=list(params["candidates"]), **dist_kw,
                    voter_dist=np.random.uniform, voter_dist_kwargs={"low": 0.0, "high": 1.0, "size": params.get("dim", 2)},
                    candidate_dist=np.random.uniform, candidate_dist_kwargs={"low": 0.0, "high": 1.0, "size": params.get("dim", 2)})
     if model == "ClusteredSpatial":
-        return cls(candidates=list(params["candidates"]),
+        return cls(candidates=list(params["candidates"]), **dist_kw,
                    voter_dist=np.random.normal, voter_dist_kwargs={"loc": 0, "scale": 0.3, "size": params.get("dim", 2)},
                    candidate_dist=np.random.uniform, candidate_dist_kwargs={"low": 0.0, "high": 1.0, "size": params.get("dim", 2)})
     kw = build_kwargs(params)
